@@ -288,6 +288,10 @@ pub fn generate(seed: u64, thorough: bool) -> Generated {
             push(&mut setup, &mut model, Op::Refresh { slot });
         }
     }
+    if rng.chance(1, 2) {
+        let root = *rng.pick(&roots);
+        push(&mut setup, &mut model, Op::SetOverlay { slot: root, content: content::generate(&mut rng, root, &palette) });
+    }
     if rng.chance(1, 3) {
         push(&mut setup, &mut model, Op::Ask { root: *rng.pick(&roots), query: Query::Analyze });
     }
@@ -317,6 +321,21 @@ pub fn generate(seed: u64, thorough: bool) -> Generated {
         push(&mut sink, &mut shadow, op.clone());
         let span = if rng.chance(1, 3) { 40 } else { 8 };
         owner.push(OwnerStep { sleeps: rng.below(span) as u8, op });
+    }
+    // close and reopen an open root document (the revision a worker read may come back)
+    if rng.chance(1, 4) {
+        let open_roots: Vec<usize> = roots.iter().copied().filter(|r| shadow.slots[*r].overlay.is_some()).collect();
+        if let Some(root) = open_roots.first().copied() {
+            let reopen = vec![
+                Op::ClearOverlay { slot: root },
+                Op::SetOverlay { slot: root, content: content::generate(&mut rng, root, &palette) },
+            ];
+            for op in reopen {
+                let mut sink = Vec::new();
+                push(&mut sink, &mut shadow, op.clone());
+                owner.push(OwnerStep { sleeps: rng.below(6) as u8, op });
+            }
+        }
     }
     // readers: often the same root, so that one blocks on the other's in-flight query
     let reader_count = rng.range(1, 3);
